@@ -12,6 +12,10 @@ def tasks(run):
     out += [('program', ('T_user_lmi', v, {})) for v in range(16)]
     # the same Constraint / PSDMatrix object registered twice: each registration is sent, and the exposed multipliers still certify the bound
     out += [('program', ('T_duplicates', v, {})) for v in range(4)]
+    # stiff models (L = 30..100, unit radius): the multiplier of G >> 0 has genuine eigenvalues more than 1e3 apart - all of them belong to the certificate
+    out += [('program', ('T_illcond', v, {})) for v in range(4)]
+    # rows with large coefficients (radius 20 / 50): the exposed multiplier is that of the constraint AS DECLARED
+    out += [('program', ('T_scaled', v, {})) for v in range(2)]
     return out
 
 
@@ -35,7 +39,7 @@ def run(run):
     hc.solve_scenarios(run, 'C01', tasks(run), 'rt-solve-certificate',
                        'seeded DSL programs (11 templates x variants: several metrics, user / function / class LMIs written symmetrically or not, composite functions, '
                        'partitions, steps); after each finite solve the identity objective - tau = sum(lambda x constraint) - <S,G> - sum<Z,T> is recomputed by the harness '
-                       'from the exposed multipliers over all (G,F), signs and PSD-ness checked; solvers CLARABEL and SCS; tolerance 1e-3(1+|tau|) on coefficients')
+                       'from the exposed multipliers over all (G,F), signs and PSD-ness checked; solvers CLARABEL and SCS; tolerance 1e-4(1+|tau|) on coefficients')
     run.assume('KKT multipliers returned by the numerical solver satisfy Lagrangian stationarity for the problem it was given (assumed solver contract)')
 
 
